@@ -369,3 +369,87 @@ func genWrapOps(r *rng, pf pProfile, e *pExec, do func(string) string, next func
 		}
 	}
 }
+
+// genPExhaustive: script number idx enumerates (parser kind, geometry, flags, string over {a,b});
+// the string is written in one piece (or through ReadFrom with single-byte reads) and parsed
+// completely. Used by the thorough tier: 7 kinds x 6 geometries x 2 flags x 2 deliveries x {a,b}^<=7.
+func genPExhaustive(idx int, id string, cnt counters, emit func(line, out string)) *pExec {
+	kinds := allKinds
+	type geo struct{ bs, ss, ws, bl int }
+	geos := []geo{{16, 7, 16, 16}, {8, 3, 4, 3}, {5, 2, 2, 2}, {12, 1, 1, 5}, {9, 8, 20, 4}, {64, 0, 0, 7}}
+	kind := kinds[idx%7]
+	idx /= 7
+	g := geos[idx%6]
+	idx /= 6
+	flags := idx % 2
+	idx /= 2
+	viaReader := idx%2 == 1
+	idx /= 2
+	n, x := 0, idx
+	for x >= 1<<n {
+		x -= 1 << n
+		n++
+	}
+	data := make([]byte, n)
+	for i := range data {
+		data[i] = byte('a' + (x>>i)&1)
+	}
+	c := pcfg{kind: kind, f: map[string]int{"BufferSize": g.bs, "ShrinkSize": g.ss, "WindowSize": g.ws, "BlockSize": g.bl}}
+	switch kind {
+	case "HP", "BHP":
+		c.f["InputLen"], c.f["HashBits"] = 2+x%3, 3
+	case "DHP", "BDHP":
+		c.f["InputLen1"], c.f["InputLen2"], c.f["HashBits1"], c.f["HashBits2"] = 2+x%2, 4+x%3, 3, 4
+	case "BUP":
+		c.f["InputLen"], c.f["HashBits"], c.f["BucketSize"] = 2+x%3, 2, 1+x%3
+	case "GSAP":
+		c.f["MinMatchLen"] = 2 + x%2
+		if c.f["WindowSize"] != 0 && c.f["WindowSize"] < c.f["MinMatchLen"] {
+			c.f["WindowSize"] = c.f["MinMatchLen"]
+		}
+	case "OSAP":
+		c.f["MinMatchLen"], c.f["MaxMatchLen"] = 2+x%2, []int{0, 3, 5}[x%3]
+	}
+	e, st := newPExec(c, cnt)
+	emit(e.header(id), fmt.Sprintf("S %s %s", id, st))
+	e.lines = append(e.lines, e.header(id))
+	if st != "ok" {
+		emit("E", "E")
+		return e
+	}
+	do := func(line string) string {
+		out := e.step(line)
+		emit(line, out)
+		return out
+	}
+	rest := data
+	for guard := 0; guard < 64 && !e.dead; guard++ {
+		if len(rest) > 0 {
+			var out string
+			if viaReader {
+				rs := make([]resp, len(rest))
+				for i := range rs {
+					rs[i] = resp{1, 0}
+				}
+				out = do(fmt.Sprintf("readfrom %s %s", hx(rest), showResps(rs)))
+			} else {
+				out = do("write " + hx(rest))
+			}
+			var k int
+			fmt.Sscan(out, &k)
+			rest = rest[k:]
+		}
+		for g2 := 0; g2 < 64 && !e.dead && e.unparsed() > 0; g2++ {
+			do(fmt.Sprintf("parse %d", flags))
+		}
+		if len(rest) == 0 {
+			break
+		}
+		do("shrink")
+	}
+	if !e.dead {
+		do(fmt.Sprintf("parse %d", flags))
+	}
+	emit("E", "E")
+	return e
+}
